@@ -77,6 +77,14 @@ impl Fq2 {
         }
         let b = self.c1;
         let a = self.c0;
+        if b.is_zero() {
+            // a lies in Fq: its root is sqrt(a) when a is a residue of Fq and
+            // sqrt(-a/2) * i otherwise (i^2 = -2; exactly one of the two exists).
+            return match a.sqrt() {
+                Some(y) => Some(Self::new(y, Fq::zero())),
+                None => (-a).div2().sqrt().map(|z| Self::new(Fq::zero(), z)),
+            };
+        }
         let bb = b.squared();
         let aa = a.squared();
         let u = aa + bb.double();
